@@ -69,7 +69,7 @@ func init() {
 		Doc: "every single-bit flip of every byte of every handshake act (small auth payload), for v2 XX and KK (thorough: also v0 and v1 XX)",
 	})
 	simrt.Register(&simrt.Scenario{
-		Prop: "C04", Name: "rewrites-random", Count: tiered(400, 40000),
+		Prop: "C04", Name: "rewrites-random", Count: tiered(3000, 40000),
 		Run: c04Random, MaxOps: 1 << 20, Horizon: time.Hour,
 		Doc: "random multi-byte rewrites, act replays / swaps / truncations / extensions by the man in the middle, random configuration and payload size",
 	})
@@ -98,8 +98,12 @@ func c04Agree(rc *simrt.RunCtx, what, tamper string, sp hsSpec, cli, srv *party)
 	}
 	rc.Probe("c04.both-complete")
 	cm, sm := cli.conn.noise, srv.conn.noise
+	pat := "XX"
+	if sp.cliRemote != nil {
+		pat = "KK"
+	}
 	bad := func(field, f string, a ...any) {
-		rc.Violate("c04.agree", tamper+"/"+field, "%s: both parties completed the handshake but %s", what, fmt.Sprintf(f, a...))
+		rc.Violate("c04.agree", tamper+"/"+field+"/"+pat, "%s: both parties completed the handshake but %s", what, fmt.Sprintf(f, a...))
 	}
 	switch {
 	case cm.sendCipher.secretKey != sm.recvCipher.secretKey || cm.recvCipher.secretKey != sm.sendCipher.secretKey:
